@@ -152,6 +152,8 @@ func runC26(c *Ctx) {
 			return
 		}
 		// key expression equality: isEntry(e) ⇔ e is <base>.pipes[<key>].Pipe with the act's key
+		defs := localDefs(info, fd.Body)
+		returned := returnedLocals(info, fd)
 		ast.Inspect(fd.Body, func(nd ast.Node) bool {
 			var key ast.Expr
 			var kind, rule string
@@ -164,11 +166,15 @@ func runC26(c *Ctx) {
 						key, kind, rule, act, wantNonNil = ix.Index, "insert", "R26b", s, false
 					}
 				}
-				// hand-out: p := n.pipes[name].Pipe
-				if key == nil {
-					for _, r := range s.Rhs {
+				// hand-out: p := n.pipes[name].Pipe … return p. A load into a local that never leaves the function
+				// (`p := n.pipes[name].Pipe; if p != nil { p.Close() … }`) is not a hand-out: its uses are the acts.
+				if key == nil && len(s.Lhs) == len(s.Rhs) {
+					for i, r := range s.Rhs {
 						if se, ok := unparen(r).(*ast.SelectorExpr); ok && se.Sel.Name == "Pipe" {
 							if ix, ok := unparen(se.X).(*ast.IndexExpr); ok && isField(info, ix.X, namedT, "pipes") {
+								if id, isId := s.Lhs[i].(*ast.Ident); isId && info.ObjectOf(id) != nil && !returned[info.ObjectOf(id)] && len(defs[info.ObjectOf(id)]) == 1 {
+									continue
+								}
 								key, kind, rule, act = ix.Index, "hand-out", "R26b", s
 							}
 						}
@@ -178,9 +184,10 @@ func runC26(c *Ctx) {
 				if dc, ok := isBuiltinCall(info, s, "delete"); ok && len(dc.Args) == 2 && isField(info, dc.Args[0], namedT, "pipes") {
 					key, kind, rule, act = dc.Args[1], "delete", "R26b", s
 				} else if se, ok := s.Fun.(*ast.SelectorExpr); ok {
-					if inner, ok := unparen(se.X).(*ast.SelectorExpr); ok && inner.Sel.Name == "Pipe" {
-						if ix, ok := unparen(inner.X).(*ast.IndexExpr); ok && isField(info, ix.X, namedT, "pipes") {
-							key, kind, rule, act = ix.Index, "call:"+se.Sel.Name, "R26c", s
+					// method call on the entry's pipe: n.pipes[k].Pipe.M(), or p.M() with p := n.pipes[k].Pipe
+					if k, _, ok := pipeEntryOf(info, defs, se.X); ok {
+						if _, isMethod := callee(info, s).(*types.Func); isMethod {
+							key, kind, rule, act = k, "call:"+se.Sel.Name, "R26c", s
 						}
 					}
 				}
@@ -189,15 +196,20 @@ func runC26(c *Ctx) {
 				return true
 			}
 			nActs++
+			var viaDef ast.Expr // the check tests a local snapshot of the entry taken at this definition
 			isEntry := func(e ast.Expr) bool {
-				se, ok := unparen(e).(*ast.SelectorExpr)
-				if !ok || se.Sel.Name != "Pipe" {
+				k, def, ok := pipeEntryOf(info, defs, e)
+				if !ok || !c.sameExpr(k, key) {
 					return false
 				}
-				ix, ok := unparen(se.X).(*ast.IndexExpr)
-				return ok && isField(info, ix.X, namedT, "pipes") && c.sameExpr(ix.Index, key)
+				viaDef = def
+				return true
 			}
 			r := c.checkThenAct(info, fd, act, isEntry)
+			if r.Found && r.SameCS && viaDef != nil && !c.lockHeldBetween(info, fd, viaDef, act) {
+				// the snapshot was taken in another critical section than the act it justifies
+				r.SameCS = false
+			}
 			k := fd.Name.Name + ":" + kind
 			switch {
 			case !r.Found:
@@ -220,42 +232,45 @@ func runC26(c *Ctx) {
 		if fd == nil {
 			continue
 		}
+		// every return reached with the entry known absent — `entry == nil` arm, switch case, else branch or the
+		// code after an `if entry != nil { … return }` exit; nil on either side; entry possibly through a local —
+		// returns a non-nil error (last result)
 		found := false
+		defs := localDefs(info, fd.Body)
+		okRet, firstPos := true, token.NoPos
 		walkStack(fd.Body, func(nd ast.Node, stack []ast.Node) bool {
-			is, ok := nd.(*ast.IfStmt)
+			if _, isLit := nd.(*ast.FuncLit); isLit {
+				return false
+			}
+			rs, ok := nd.(*ast.ReturnStmt)
 			if !ok {
 				return true
 			}
-			m, nn := c.entryNilCheck(info, is.Cond, true, func(e ast.Expr) bool {
-				se, ok := unparen(e).(*ast.SelectorExpr)
-				if !ok || se.Sel.Name != "Pipe" {
-					return false
-				}
-				ix, ok := unparen(se.X).(*ast.IndexExpr)
-				return ok && isField(info, ix.X, namedT, "pipes")
-			})
-			if !m || nn {
-				return true
-			}
-			// every return inside this arm returns a non-nil error (last result)
-			okRet, nRet := true, 0
-			ast.Inspect(is.Body, func(x ast.Node) bool {
-				if rs, ok := x.(*ast.ReturnStmt); ok {
-					nRet++
-					if len(rs.Results) == 0 {
-						okRet = false
-					} else if id, ok := unparen(rs.Results[len(rs.Results)-1]).(*ast.Ident); ok && id.Name == "nil" {
-						okRet = false
+			missing := false
+			for _, f := range factsOf(guardsAt(info, stack)) {
+				if x, isNil, ok := nilTestFact(info, f); ok && isNil {
+					if _, _, isE := pipeEntryOf(info, defs, x); isE {
+						missing = true
 					}
 				}
+			}
+			if !missing {
 				return true
-			})
-			if nRet > 0 {
-				found = true
-				c.Check(okRet, "R26d", name+":missing-returns-error", is.Pos(), "Named.%s returns an error when the pipe does not exist", name)
+			}
+			found = true
+			if firstPos == token.NoPos {
+				firstPos = rs.Pos()
+			}
+			if len(rs.Results) == 0 {
+				okRet = false
+			} else if id, ok := unparen(rs.Results[len(rs.Results)-1]).(*ast.Ident); ok && id.Name == "nil" {
+				okRet = false
 			}
 			return true
 		})
+		if found {
+			c.Check(okRet, "R26d", name+":missing-returns-error", firstPos, "Named.%s returns an error when the pipe does not exist", name)
+		}
 		if !found {
 			c.Viol("R26d", name+":missing-returns-error", fd.Pos(), "Named.%s has no `entry == nil ⇒ return error` exit", name)
 		}
@@ -300,11 +315,17 @@ func runC26(c *Ctx) {
 	for _, name := range []string{"Close", "Delete"} {
 		if fd, _ := c.FuncDecl(pipesPkg, "Named", name); fd != nil {
 			found := false
-			ast.Inspect(fd.Body, func(x ast.Node) bool {
-				if is, ok := x.(*ast.IfStmt); ok {
-					if b, ok := unparen(is.Cond).(*ast.BinaryExpr); ok && b.Op == token.EQL {
-						if s, ok := constString(info, b.Y); ok && s == "null" && terminates(info, is.Body.List) {
-							found = true
+			// a return guarded by `<name> == "null"` (if arm, switch case, either operand order)
+			walkStack(fd.Body, func(x ast.Node, stack []ast.Node) bool {
+				if _, ok := x.(*ast.ReturnStmt); !ok {
+					return true
+				}
+				for _, f := range factsOf(guardsAt(info, stack)) {
+					if b, ok := unparen(f.E).(*ast.BinaryExpr); ok && ((b.Op == token.EQL && f.True) || (b.Op == token.NEQ && !f.True)) {
+						for _, side := range []ast.Expr{b.X, b.Y} {
+							if s, ok := constString(info, side); ok && s == "null" {
+								found = true
+							}
 						}
 					}
 				}
@@ -313,4 +334,93 @@ func runC26(c *Ctx) {
 			c.Check(found, "R26d", name+":null-protected", fd.Pos(), "Named.%s refuses the built-in `null` pipe", name)
 		}
 	}
+}
+
+// pipeEntryOf: e denotes <registry>.pipes[key].Pipe — written out, or a single-definition local initialised with
+// it (`p := n.pipes[name].Pipe`), or `x.Pipe` with x a single-definition local initialised with
+// <registry>.pipes[key]. def is the defining expression when a local is involved (a snapshot of the entry).
+func pipeEntryOf(info *types.Info, defs defMap, e ast.Expr) (key ast.Expr, def ast.Expr, ok bool) {
+	direct := func(e ast.Expr) (ast.Expr, bool) {
+		se, ok := unparen(e).(*ast.SelectorExpr)
+		if !ok || se.Sel.Name != "Pipe" {
+			return nil, false
+		}
+		ix, ok := unparen(se.X).(*ast.IndexExpr)
+		if !ok || !isField(info, ix.X, namedT, "pipes") {
+			return nil, false
+		}
+		return ix.Index, true
+	}
+	if k, ok := direct(e); ok {
+		return k, nil, true
+	}
+	if _, isId := unparen(e).(*ast.Ident); isId {
+		if r := defs.resolve1(info, e); r != unparen(e) {
+			if k, ok := direct(r); ok {
+				return k, r, true
+			}
+		}
+		return nil, nil, false
+	}
+	if se, isSel := unparen(e).(*ast.SelectorExpr); isSel && se.Sel.Name == "Pipe" {
+		if _, isId := unparen(se.X).(*ast.Ident); isId {
+			if ix, isIx := defs.resolve1(info, se.X).(*ast.IndexExpr); isIx && isField(info, ix.X, namedT, "pipes") {
+				return ix.Index, ix, true
+			}
+		}
+	}
+	return nil, nil, false
+}
+
+// returnedLocals: the local variables that occur in a result of some return statement of fd.
+func returnedLocals(info *types.Info, fd *ast.FuncDecl) map[types.Object]bool {
+	out := map[types.Object]bool{}
+	ast.Inspect(fd.Body, func(n ast.Node) bool {
+		if rs, ok := n.(*ast.ReturnStmt); ok {
+			for _, r := range rs.Results {
+				ast.Inspect(r, func(x ast.Node) bool {
+					if id, ok := x.(*ast.Ident); ok {
+						if o := info.ObjectOf(id); o != nil {
+							out[o] = true
+						}
+					}
+					return true
+				})
+			}
+		}
+		return true
+	})
+	return out
+}
+
+// lockHeldBetween: no mutex operation and no join point (label, loop head) lies between the snapshot `from` and the
+// act `to`, except unlocks inside a block that leaves the function/loop before reaching `to` (early exits).
+func (c *Ctx) lockHeldBetween(info *types.Info, fd *ast.FuncDecl, from ast.Node, to ast.Node) bool {
+	ok := true
+	walkStack(fd.Body, func(n ast.Node, stack []ast.Node) bool {
+		if n.Pos() <= from.End() || n.Pos() >= to.Pos() {
+			return true
+		}
+		switch x := n.(type) {
+		case *ast.LabeledStmt, *ast.ForStmt, *ast.RangeStmt, *ast.FuncLit, *ast.GoStmt, *ast.DeferStmt:
+			if x.End() <= to.Pos() || x.Pos() > from.End() {
+				ok = false
+			}
+		case *ast.CallExpr:
+			if _, op := mutexOp(info, x); op != "" {
+				// allowed only inside a terminating block that does not contain the act
+				exits := false
+				for i := len(stack) - 1; i >= 0; i-- {
+					if blk, isB := stack[i].(*ast.BlockStmt); isB && !(blk.Pos() <= to.Pos() && to.End() <= blk.End()) && terminates(info, blk.List) {
+						exits = true
+					}
+				}
+				if !exits {
+					ok = false
+				}
+			}
+		}
+		return true
+	})
+	return ok
 }
